@@ -200,7 +200,7 @@ def structure(rng, atoms, case, flat_p=0.3, depth=0, in_bracket=False):
             allbr = all(b for _, b in chunk)
             anybr = any(b for _, b in chunk)
             case.feats.add("flatten" if depth == 0 else "flatten-nested")
-            if allbr and not in_bracket and rng.random() < case.note.get("br_flat_p", 0.0):
+            if allbr and not in_bracket and case.note.get("br_flat_p", 0.0) > 0 and rng.random() < case.note["br_flat_p"]:
                 # a bracket around a parenthesised group: ONE dimension of the elementary operation
                 inner = structure(rng, [(n, False) for n, _ in chunk], case, flat_p * 0.6, depth + 1, True)
                 items.append((Br([Flat(inner)]), False))
